@@ -57,13 +57,28 @@ fn lp_selftest() -> Result<(), String> {
     }
     // 300 pseudo-random systems: certificates are checked inside solve(); cross-check derived facts
     let mut g = Lcg(12345);
-    for _ in 0..300 {
-        let n = 1 + (g.next() % 3) as usize;
-        let m = (g.next() % 6) as usize;
+    for _ in 0..600 {
+        let n = 1 + (g.next() % 4) as usize;
+        let m = (g.next() % 9) as usize;
         let a: Vec<Vec<Q>> = (0..m).map(|_| (0..n).map(|_| Q::int(g.small())).collect()).collect();
         let b: Vec<Q> = (0..m).map(|_| Q::int(g.small())).collect();
         let c: Vec<Q> = (0..n).map(|_| Q::int(g.small())).collect();
         let r1 = lp::solve(&a, &b, &c);
+        // primal and dual simplex must agree (both answers are certificate-checked on their own)
+        let rp = lp::solve_inner(&a, &b, &c);
+        let rd = lp::solve_dual(&a, &b, &c);
+        for r in [&rp, &rd] {
+            lp::check_certificate(&a, &b, &c, r).map_err(|e| format!("certificate rejected in self-test: {e}"))?;
+        }
+        let same = match (&rp, &rd) {
+            (LpResult::Infeasible { .. }, LpResult::Infeasible { .. }) => true,
+            (LpResult::Unbounded { .. }, LpResult::Unbounded { .. }) => true,
+            (LpResult::Optimal { value: v1, .. }, LpResult::Optimal { value: v2, .. }) => v1 == v2,
+            _ => false,
+        };
+        if !same {
+            return Err(format!("primal and dual simplex disagree: {rp:?} vs {rd:?}"));
+        }
         let neg: Vec<Q> = c.iter().map(|x| -x).collect();
         let rows: Vec<Row> = a.iter().zip(&b).map(|(r, bb)| Row::le(r.clone(), bb.clone())).collect();
         let feas = lp::feasible_closed(&rows, n).is_some();
